@@ -146,6 +146,17 @@ def gen_config(rng, nargs, kinds=KINDS, features=True, prefix_family=True):
             sel = list(args)
             rng.shuffle(sel)
             cons.append((rng.choice(['all_of', 'any_of', 'one_of']), sel[:k]))
+        # value constraints: differ over scalars of one type, disjoint over two vectors of one type
+        for kd in ('i', 's'):
+            grp = [a for a in args if a.kind == kd]
+            if len(grp) >= 2 and rng.chance(1, 3):
+                rng.shuffle(grp)
+                cons.append(('differ', grp[:rng.range(2, min(3, len(grp)))]))
+        for kd in ('vi', 'vs'):
+            grp = [a for a in args if a.kind == kd]
+            if len(grp) >= 2 and rng.chance(1, 2):
+                rng.shuffle(grp)
+                cons.append(('disjoint', grp[:2]))
     return args, cons
 
 
@@ -219,6 +230,8 @@ def gen_line(rng, args, cons, maxuses=6):
     # handler constraints
     for (t, grp) in cons:
         inl = [a for a in grp if a in chosen]
+        if t in ('differ', 'disjoint'):
+            continue
         if t == 'all_of':
             for a in grp:
                 if a not in chosen:
@@ -312,7 +325,31 @@ def gen_line(rng, args, cons, maxuses=6):
             uses.append(Use(a, vals))
         else:
             uses.append(Use(a, [gen_value(rng, a)]))
+    if not value_constraints_ok(args, cons, uses):
+        return None
     return uses
+
+
+def _elems(text):
+    inner = text[1:-1]
+    return inner.split(',') if inner else []
+
+
+def value_constraints_ok(args, cons, uses):
+    """differ: used arguments of the list hold pairwise different values; disjoint: the final contents (initial
+    content included) of the two containers share no element"""
+    store = expected_store(args, uses)
+    used = {id(u.arg) for u in uses}
+    for (t, grp) in cons:
+        if t == 'differ':
+            vals = [store[a.slot] for a in grp if id(a) in used]
+            if len(set(vals)) != len(vals):
+                return False
+        elif t == 'disjoint':
+            e1, e2 = _elems(store[grp[0].slot]), _elems(store[grp[1].slot])
+            if e1 and e2 and set(e1) & set(e2):
+                return False
+    return True
 
 
 def _canon(a, v):
@@ -510,7 +547,8 @@ def expected_store(args, uses):
 
 MUTATIONS = ['drop-mandatory', 'duplicate', 'unknown-short', 'unknown-long', 'bad-value', 'boundary-value',
              'missing-value-end', 'missing-value-mid', 'excluded-after', 'required-missing', 'break-handler-constraint',
-             'too-many-elements', 'too-few-elements', 'ambiguous-abbrev', 'value-for-flag', 'lone-dash']
+             'too-many-elements', 'too-few-elements', 'ambiguous-abbrev', 'value-for-flag', 'lone-dash',
+             'break-value-constraint', 'break-value-constraint']
 
 
 def mutate(rng, kind, args, cons, uses):
@@ -605,10 +643,51 @@ def mutate(rng, kind, args, cons, uses):
             return None
         # the requirement chain may pull in others; removing r is enough to break the rule of uses[i]
         return spell_([u for u in uses if u.arg is not r])
-    if kind == 'break-handler-constraint':
-        if not cons:
+    if kind == 'break-value-constraint':
+        vc = [c for c in cons if c[0] in ('differ', 'disjoint')]
+        if not vc:
             return None
-        t, grp = rng.choice(cons)
+        t, grp = rng.choice(vc)
+        present = {id(u.arg): u for u in uses}
+        if t == 'differ':
+            # two listed arguments with the same value (a third, unused one may stand before them in the list)
+            a, b = rng.choice([(x, y) for x in grp for y in grp if x is not y])
+            ua = present.get(id(a))
+            if ua is None:
+                return None
+            v = ua.values[0]
+            if run_checks_py(b, v) is False:
+                return None
+            ub = present.get(id(b))
+            if ub is None:
+                for e in b.excl + a.excl:
+                    if id(e) in present or e is a or e is b:
+                        return None
+                uses.append(Use(b, [v]))
+            else:
+                ub.values = [v]
+            if _canon(a, v) != _canon(b, v):
+                return None
+            return spell_(uses)
+        a, b = grp
+        ua, ub = present.get(id(a)), present.get(id(b))
+        if ua is None or ub is None or not ua.values:
+            return None
+        v = rng.choice(ua.values)
+        if run_checks_py(b, v) is False or (b.uniq_err and _canon(b, v) in [_canon(b, x) for x in ub.values]):
+            return None
+        if _canon(a, v) != _canon(b, v):
+            return None
+        if b.card:
+            return None
+        # the common element not in first position: needs the unsorted case of the intersection test
+        ub.values = ub.values + [v] if rng.chance(1, 2) else [v] + ub.values
+        return spell_(uses)
+    if kind == 'break-handler-constraint':
+        hc = [c for c in cons if c[0] not in ('differ', 'disjoint')]
+        if not hc:
+            return None
+        t, grp = rng.choice(hc)
         mk = lambda x: Use(x, [gen_value(rng, x)] if x.is_value() else [])  # noqa
         present = [u.arg for u in uses]
         if t == 'all_of':
@@ -676,3 +755,24 @@ def mutate(rng, kind, args, cons, uses):
     if kind == 'lone-dash':
         return spell_(uses) + ['-']
     return None
+
+
+def run_checks_py(a, v):
+    """does the element text v pass the checks of argument a (python restatement used by generators only)"""
+    try:
+        for c in a.checks:
+            if c[0] == 'lower' and int(v) < c[1]:
+                return False
+            if c[0] == 'upper' and int(v) >= c[1]:
+                return False
+            if c[0] == 'range' and not (c[1] <= int(v) < c[2]):
+                return False
+            if c[0] == 'values' and v not in c[1:]:
+                return False
+            if c[0] == 'minlen' and len(v) < c[1]:
+                return False
+            if c[0] == 'maxlen' and len(v) > c[1]:
+                return False
+    except ValueError:
+        return False
+    return True
